@@ -86,7 +86,13 @@ def run(ctx):
                 if fa[0] == "variant" and (fa[3] or "").endswith("ArtifactRule"):
                     arm = fa[2]
             for l in b.trace(t["args"][1], (), None, {"__flow_all__": lambda tt: callee_name(tt) in (
-                    "std::convert::AsRef::as_ref", "std::vec::Vec::append", "std::ops::Deref::deref"), "__agg_all__": True}, follow_mut=True):
+                    "std::convert::AsRef::as_ref", "std::vec::Vec::append", "std::ops::Deref::deref", "models::layout::rule::ArtifactRule::pattern"),
+                    "__agg_all__": True}, follow_mut=True):
+                if l.kind == "param" and l.data == 1 and not l.path and "ArtifactRule::pattern" in l.via:
+                    # the public accessor pattern() yields the pattern binding of whichever variant self is
+                    for v_ in adt["variants"]:
+                        emitted_paths.setdefault(v_["name"], set()).add((v_["fields"][0]["name"],))
+                    continue
                 if l.kind == "param" and l.data == 1:
                     # the variant is named by the binding's own path when arms share one emit site
                     vs = [x[1] for x in l.path if x[0] == "v"]
